@@ -50,9 +50,22 @@ def self_field(t, name):
 
 
 def field_ty(p, adt, name):
+    """the declared member; an array length spelled with a named constant (`[u8; HASH_LEN]`, `[u8; Self::LEN]`) is replaced
+    by the constant's value (a constant of the type, or the one constant of that name in the crate)"""
     a = p.adts.get(adt)
     for f in a["variants"][0]["fields"] if a else []:
         if f["name"] == name:
+            f = dict(f)
+            crate = adt.split("::", 1)[0]
+
+            def val(m):
+                nm = m.group(2)
+                if m.group(1):
+                    v = p.const_bits(p.adts.resolve(adt) + "::" + nm)
+                    return str(v) if v is not None else m.group(0)
+                cands = {str(k.get("bits")) for path_, k in p.consts.items() if path_.startswith(crate + "::") and path_.rsplit("::", 1)[-1] == nm and k.get("bits") is not None}
+                return next(iter(cands)) if len(cands) == 1 else m.group(0)
+            f["ty"] = re.sub(r"\b(Self::)?([A-Z][A-Z0-9_]+)\b(?=\])", val, f["ty"])
             return f
     return None
 
